@@ -38,14 +38,15 @@ S3 = z3.Real('sqrt3')            # the algebraic number sqrt(3): constrained by 
 
 def twiddles(n):
     """omega^k, k = 0..n-1, for omega = exp(-2 pi i / n) as exact (re, im) pairs; n in {1,2,4} Gaussian rationals,
-    n in {3,6} elements of Q(sqrt 3)"""
+    n in {3,6,12} elements of Q(sqrt 3)"""
     h = K(Fr(1, 2))
     s = SReal(S3) * K(Fr(1, 2))
     table = {1: [(1, 0)], 2: [(1, 0), (-1, 0)], 4: [(1, 0), (0, -1), (-1, 0), (0, 1)],
              3: [(1, 0), (-h, -s), (-h, s)],
-             6: [(1, 0), (h, -s), (-h, -s), (-1, 0), (-h, s), (h, s)]}
+             6: [(1, 0), (h, -s), (-h, -s), (-1, 0), (-h, s), (h, s)],
+             12: [(1, 0), (s, -h), (h, -s), (0, -1), (-h, -s), (-s, -h), (-1, 0), (-s, h), (-h, s), (0, 1), (h, s), (s, h)]}
     if n not in table:
-        raise AssertionError('the exact DFT stand-in is defined for ntheta in {1,2,3,4,6} only')
+        raise AssertionError('the exact DFT stand-in is defined for ntheta in {1,2,3,4,6,12} only')
     return table[n]
 
 
@@ -509,7 +510,15 @@ def main():
     items.append((2, 2, 'nu', (1, 2), False, 0, 4, None))
     items.append((2, 2, 'nu', (1, 1), True, 0, 4, None, True))          # density gradient through the keyword n0deriv
     items.append((2, 2, 'nu', (2, 1), False, 0, 3, None))
+    items.append((1, 2, 'nu', (1, 1), True, 0, 12, None))               # twelve theta points: modes up to |m| = 5 and the Nyquist mode -6
     if not quick:
+        for chi in (0, 1):
+            items.append((2, 2, 'nu', (2, 1), True, chi, 12, None))
+            items.append((3, 2, 'cu', (2, 2), True, chi, 6, None))
+            items.append((2, 3, 'nu', (3, 1), True, chi, 6, None))
+        items.append((2, 2, 'nu', (1, 2), False, 0, 12, None))
+        items.append((1, 2, 'nu', (3, 1), True, 1, 12, None))
+        items.append((2, 2, 'nu', (1, 1), True, 0, 6, None, True))
         for chi in (0, 1):
             items.append((3, 2, 'cu', (2, 2), True, chi, 4, None))
             items.append((1, 3, 'nu', (4, 1), True, chi, 4, None))
@@ -535,11 +544,11 @@ def main():
         if not hit:
             run.canary_miss(cn[0], caught)
     numenv.enable(extra_modules=[(ps, None)])
-    run.stubs = sorted(set(numenv.STUBS)) + ['scipy.fftpack.fft / ifft: their definition (exact DFT) for ntheta in {2,3,4,6}: twiddle factors in Q(i) or Q(i, sqrt 3), sqrt 3 a real constant with sqrt3^2 = 3', 'spsolve: exact solve of the concrete rational system (contract A x = b)',
+    run.stubs = sorted(set(numenv.STUBS)) + ['scipy.fftpack.fft / ifft: their definition (exact DFT) for ntheta in {2,3,4,6,12}: twiddle factors in Q(i) or Q(i, sqrt 3), sqrt 3 a real constant with sqrt3^2 = 3', 'spsolve: exact solve of the concrete rational system (contract A x = b)',
                                              'scipy.sparse: dense stand-in', 'n0, Te, n0\'/n0: rational profile functions passed through the constructor\'s own keyword arguments']
     numenv.disable()
-    run.bounds = dict(ntheta='4 and 3 (thorough also 2 and 6)', radial='degrees 1-3, 2-3 cells, uniform breaks', process_grids='(1,1),(2,1),(1,2) (thorough (2,2),(4,1))', electrons='adiabatic chi in {0,1}; kinetic')
-    run.outside = ['FFT round trip is the identity (holds by the DFT contract used here, not decided)', 'theta counts other than 2, 3, 4, 6 in the solved part (twiddle factors outside Q(i, sqrt 3)); the mode-number table alone is compared for every theta count up to 64 (thorough 600) concretely',
+    run.bounds = dict(ntheta='4, 3 and 12 (thorough also 2 and 6)', radial='degrees 1-3, 2-3 cells, uniform breaks', process_grids='(1,1),(2,1),(1,2) (thorough (2,2),(4,1))', electrons='adiabatic chi in {0,1}; kinetic')
+    run.outside = ['FFT round trip is the identity (holds by the DFT contract used here, not decided)', 'theta counts other than 2, 3, 4, 6, 12 in the solved part (twiddle factors outside Q(i, sqrt 3)); the mode-number table alone is compared for every theta count up to 64 (thorough 600) concretely',
                    'the equilibrium as a fixed point of the complete time step', 'rounding']
     run.assumptions = ['scipy.fftpack.fft/ifft implement the DFT definition', 'exact reals for doubles', 'spsolve contract']
     run.finish(
